@@ -181,14 +181,18 @@ def run(pid: str, tier: str, seed: int, selftest=False, replay=None) -> int:
 
     # ---- (c) AccessPattern.canonicalize / inner_dims
     def exp_pat(p):
-        return {"bounds": [int(x) for x in p.bounds], "pats": [{"A": [[int(x) for x in r] for r in p.pattern.A], "b": [int(x) for x in p.pattern.b]}]}
+        # (a dynamic bound - None, templates only - is exported as 0; ObjCheck instantiates it with an extent of 3)
+        return {"bounds": [int(x) if x is not None else 0 for x in p.bounds],
+                "pats": [{"A": [[int(x) for x in r] for r in p.pattern.A], "b": [int(x) for x in p.pattern.b]}]}
+    from snaxc.ir.dart.access_pattern import TemplatePattern
     for _ in range(400 if quick else 8000):
         ndp = rng.choice([1, 2, 3, 4])
-        bounds = [rng.choice([1, 1, 2, 3, 4]) for _ in range(ndp)]
+        tmpl_pat = rng.random() < 0.3
+        bounds = [rng.choice([1, 1, 2, 3, 4] + ([None, None] if tmpl_pat else [])) for _ in range(ndp)]
         rows = rng.choice([1, 2])
         A = [[rng.randint(-2, 3) for _ in range(ndp)] for _ in range(rows)]
         b = [rng.randint(0, 2) for _ in range(rows)]
-        p = SchedulePattern(bounds, AffineTransform(np.array(A, dtype=np.int_).reshape(rows, ndp), np.array(b, dtype=np.int_)))
+        p = (TemplatePattern if tmpl_pat else SchedulePattern)(bounds, AffineTransform(np.array(A, dtype=np.int_).reshape(rows, ndp), np.array(b, dtype=np.int_)))
         k = rng.randint(1, ndp)
         try:
             c1 = p.canonicalize()
